@@ -71,6 +71,10 @@ func familyOK(stage, code string) bool {
 	return false
 }
 
+// inputs run between two repetitions: multi-line, tabs, long lines, rejected and accepted
+var perturb = []string{"\nSELECT id, name FROM users WHERE active = true", "\t\tSELECT a,\n\t\t\tb FROM t\n\n\n  WHERE x = 'unterminated",
+	"SELECT " + strings.Repeat("col, ", 40) + "col\nFROM t WHERE", "\n\n\n\n\n\n    SELECT 1;\n  SELECT ^"}
+
 type input struct {
 	stage, text, origin string
 }
@@ -179,6 +183,40 @@ func main() {
 			input{"depth", strings.Repeat("WITH c AS (", d) + "SELECT 1" + strings.Repeat(") SELECT * FROM c", d), "pump:cte"},
 			input{"depth", "SELECT " + strings.Repeat("f(", d) + "a" + strings.Repeat(")", d) + " FROM t", "pump:calls"})
 	}
+	// the nesting limit reached inside every statement context that can hold an expression, bare and inside a CTE
+	{
+		exprs := map[string]func(d int) string{
+			"parens": func(d int) string { return strings.Repeat("(", d) + "1" + strings.Repeat(")", d) },
+			"not":    func(d int) string { return strings.Repeat("NOT ", d) + "(a = 1)" },
+			"calls":  func(d int) string { return strings.Repeat("f(", d) + "a" + strings.Repeat(")", d) },
+		}
+		ctxs := []string{"SELECT %s FROM t", "SELECT a FROM t WHERE %s", "INSERT INTO t (a) VALUES (%s)", "INSERT INTO t (a) VALUES (1) RETURNING %s",
+			"INSERT INTO t (a) VALUES (1) ON CONFLICT (a) DO UPDATE SET a = %s", "INSERT INTO t (a) VALUES (1) ON DUPLICATE KEY UPDATE a = %s",
+			"REPLACE INTO t (a) VALUES (%s)", "UPDATE t SET a = %s", "UPDATE t SET a = 1 WHERE %s RETURNING a", "DELETE FROM t WHERE %s",
+			"SELECT a FROM t JOIN u ON %s", "SELECT a FROM t GROUP BY a HAVING %s", "SELECT a FROM t ORDER BY %s", "SELECT a FROM t WHERE MATCH (a) AGAINST (%s)",
+			"SELECT CASE WHEN %s THEN 1 ELSE 0 END FROM t", "SELECT SUM(a) OVER (PARTITION BY %s) FROM t", "SELECT a FROM t WHERE a IN (SELECT b FROM u WHERE %s)",
+			"SELECT * FROM (SELECT %s FROM t) x", "MERGE INTO t USING u ON %s WHEN MATCHED THEN UPDATE SET a = 1", "CREATE VIEW v AS SELECT %s FROM t"}
+		n := 0
+		for _, c := range ctxs {
+			for _, w := range []string{"%s", "WITH c AS (%s) SELECT * FROM c"} {
+				if w != "%s" && (strings.HasPrefix(c, "CREATE") || strings.HasPrefix(c, "MERGE")) {
+					continue
+				}
+				for en, e := range exprs {
+					shallow := fmt.Sprintf(w, fmt.Sprintf(c, e(2)))
+					if _, err := gosqlx.Parse(shallow); err != nil {
+						continue // the context does not take this expression at all
+					}
+					n++
+					byStage["depth"] = append(byStage["depth"], input{"depth", fmt.Sprintf(w, fmt.Sprintf(c, e(160))), "pump-in-context:" + en + ":" + firstN(fmt.Sprintf(w, c), 60)})
+				}
+			}
+		}
+		run.Extra["depth_contexts_accepted"] = n
+		if n < 40 {
+			core.Fatalf("only %d (context, expression) pairs are accepted at shallow depth", n)
+		}
+	}
 	byStage["size"] = []input{{"size", "SELECT 1" + strings.Repeat(" ", tokenizer.MaxInputSize-7), "size+1"}}
 	byStage["tokens"] = []input{{"tokens", "SELECT 1" + strings.Repeat(",1", tokenizer.MaxTokens/2+10), "tokens+"}}
 	for st, ins := range byStage {
@@ -280,6 +318,10 @@ func one(ep, stage string, in input) bool {
 	}
 	if len(in.text) < 1<<20 {
 		for rep := 0; rep < 2; rep++ {
+			if rep == 1 {
+				// a different history on the pooled tokenizer/parser between two runs of the same input
+				_ = p.Run(perturb[len(in.text)%len(perturb)])
+			}
 			o2 := p.Run(in.text)
 			run.Eval(1)
 			if o2.Code != o.Code || o2.Msg != o.Msg || o2.Line != o.Line || o2.Col != o.Col || o2.Err != o.Err {
